@@ -300,7 +300,20 @@ def post_roots(ctx, call):
 
 def post_is_multiple(ctx, call):
     if call.exc is not None:
-        ctx.skip("is_multiple", "raised")
+        # a raise is judged for numeric, finite, non-empty arrays that broadcast and a valid axis argument
+        try:
+            a_, b_ = np.broadcast_arrays(np.asarray(call.args[0]), np.asarray(call.args[1]))
+            ax_ = call.kwargs.get("axis", call.args[2] if len(call.args) > 2 else None)
+            axes = () if ax_ is None else tuple(int(x) for x in ((ax_,) if isinstance(ax_, (int, np.integer)) else ax_))
+            valid = a_.dtype.kind in "iufc" and b_.dtype.kind in "iufc" and a_.size > 0 and R.finite(a_) and R.finite(b_) and all(-a_.ndim <= x < a_.ndim for x in axes) \
+                and len({x % a_.ndim for x in axes}) == len(axes)
+        except Exception:
+            valid = False
+        if valid:
+            ctx.judge("is_multiple", False, [call.args[0], call.args[1], ax_], what=f"is_multiple raised {type(call.exc).__name__}: {str(call.exc)[:100]} (axis={ax_})", op="is_multiple",
+                      feat={"exc": type(call.exc).__name__}, nontrivial=True)
+        else:
+            ctx.skip("is_multiple", "raised")
         return
     a, b = call.args[0], call.args[1]
     kw = dict(call.kwargs)
@@ -675,11 +688,16 @@ def g_multiple_random(ctx, rng, i):
     axis_forms = [None, -1, len(shape) - 1, (-1,), [len(shape) - 1]]
     if len(shape) >= 3:
         axis_forms += [(-2, -1), (len(shape) - 2, len(shape) - 1), 0, (0, -1)]
+    if len(shape) == 2:
+        axis_forms += [0, -2]
     ax = axis_forms[(i // 20) % len(axis_forms)]
-    u.is_multiple(a, b, axis=ax)
-    u.is_multiple(a, b, ax, 1e-15, 1e-8)
-    # broadcasting a single vector against a batch
-    u.is_multiple(a[..., :1, :] if a.ndim > 1 else a, b, axis=-1)
+    for call_ in (lambda: u.is_multiple(a, b, axis=ax), lambda: u.is_multiple(a, b, ax, 1e-15, 1e-8),
+                  # broadcasting a single vector against a batch
+                  lambda: u.is_multiple(a[..., :1, :] if a.ndim > 1 else a, b, axis=-1)):
+        try:
+            call_()
+        except Exception:
+            pass  # judged by the monitor
 
 
 def g_hat_mat(ctx, rng, i):
